@@ -193,7 +193,11 @@ impl TerminalState {
                     let first = buf.get_first_visible_line();
                     caret.pos.y = caret.pos.y.clamp(first, first + self.get_height() - 1);
                 } else {
-                    caret.pos.y = caret.pos.y.max(0);
+                    // a file has no screen to clamp to, but a cursor address can take the cursor at most one
+                    // screen height below what the file has drawn so far (every row down to the cursor is
+                    // allocated by the next character)
+                    let last = crate::TextPane::get_line_count(buf).max(self.get_height()) + self.get_height();
+                    caret.pos.y = caret.pos.y.clamp(0, last);
                 }
                 caret.pos.x = caret.pos.x.clamp(0, (self.get_width() - 1).max(0));
             }
